@@ -6,6 +6,8 @@ import (
 	"context"
 	"crypto/tls"
 	"fmt"
+	"google.golang.org/grpc/codes"
+	"google.golang.org/grpc/status"
 	"io"
 	"net/http"
 	"net/http/httptest"
@@ -288,6 +290,17 @@ func (w *World) Send(entry Entry, lr LogicalRequest, up *Upstream) (Resp, error)
 		}
 
 		resp, err := w.GRPC().Check(ctx, lr.CheckRequest())
+		if status.Code(err) == codes.Unavailable {
+			// the in-process transport (bufconn) failed, which heimdall's handler has no part in (seen on saturated
+			// machines: "read/write on closed pipe" while the connection is set up): fresh plumbing, one more attempt
+			w.resetGRPC()
+
+			resp, err = w.GRPC().Check(ctx, lr.CheckRequest())
+			if status.Code(err) == codes.Unavailable {
+				return res, fmt.Errorf("in-process gRPC transport failed twice: %w", err)
+			}
+		}
+
 		if up != nil {
 			res.Hits = up.Hits() - before
 		}
